@@ -188,15 +188,16 @@ def fan_out(modname, fname, items, tier, seed, workers=None):
         outs = [_worker_call(j) for j in jobs]
     else:
         # A worker that dies (OOM kill, XLA crash) must fail the run loudly, never hang it:
-        # ProcessPoolExecutor raises BrokenProcessPool, mp.Pool would wait forever.  Thorough
-        # tiers recycle workers so that compiled-function caches cannot pile up.
+        # ProcessPoolExecutor raises BrokenProcessPool, mp.Pool would wait forever.  (Workers are not
+        # recycled: max_tasks_per_child deadlocks on CPython 3.12.1; every item clears the JAX
+        # caches when it ends instead.)
         import concurrent.futures as cf
 
         ctx = mp.get_context("spawn")
         outs = []
         pending = list(jobs)
         try:
-            with cf.ProcessPoolExecutor(workers, mp_context=ctx, initializer=_worker_init, max_tasks_per_child=(3 if tier == "thorough" else None)) as ex:
+            with cf.ProcessPoolExecutor(workers, mp_context=ctx, initializer=_worker_init, max_tasks_per_child=None) as ex:
                 futs = {ex.submit(_worker_call, j): j for j in jobs}
                 for fu in cf.as_completed(futs):
                     outs.append(fu.result())
